@@ -28,7 +28,7 @@ def main():
     os.makedirs(repo, exist_ok=True)
     for s in seeds:
         prop = s[:3]
-        sh("rsync -a --delete --exclude /target --exclude /.git /repo/ %s/" % repo)
+        sh("rsync -a --delete --exclude /target --exclude /.git %s/ %s/" % (os.environ.get("SEED_SRC", "/repo"), repo))
         a = sh("patch -p1 -d %s < %s/seeded/%s/patch.diff" % (repo, V, s))
         if a.returncode:
             print(s, "APPLY FAILED", a.stdout[-200:], a.stderr[-200:])
